@@ -90,7 +90,7 @@ def synthetic(case, note):
         if [(f.size, f.name) for f in got_fields] != fields:
             raise Violation('C16.grammar', 'field table read as %r, file declares %r'
                             % ([(f.size, f.name) for f in got_fields][:6], fields[:6]), sig='C16.grammar')
-        lines = guard('C16.decode', hlog().parse_hlog_data, memoryview(case['data']), path)
+        lines = guard('C16.decode', hlog().parse_hlog_data, D.view(case['data']), path)
     check_output(lines, fields, case['data'])
     classify(fields, case['data'], note)
 
@@ -125,14 +125,14 @@ def shipped(case, note):
     if [(f.size, f.name) for f in got_fields] != fields:
         raise Violation('C16.grammar', 'shipped table %s read as %d fields, an independent tokenizer finds %d'
                         % (case['file'], len(got_fields), len(fields)), sig='C16.grammar.shipped')
-    lines = guard('C16.decode', hlog().parse_hlog_data, memoryview(case['data']), path)
+    lines = guard('C16.decode', hlog().parse_hlog_data, D.view(case['data']), path)
     check_output(lines, fields, case['data'])
     if case['data'] and case.get('file'):
         # the same bytes as an I/O-drawer history-log section (sub-type 72) of an error log
         import json
         import udparsers.m2c00.m2c00 as plug
         ver = {'mex_pte.h': 1, 'nimitz_pte.h': 2}[case['file']]
-        out = json.loads(guard('C16.plugin', plug.parseUDToJson, 72, ver, memoryview(case['data'])))
+        out = json.loads(guard('C16.plugin', plug.parseUDToJson, 72, ver, D.view(case['data'])))
         note.extra_eval += 1
         if out.get('History Log') != lines:
             raise Violation('C16.plugin', 'as a history-log section of a PEL (version %d) the %d bytes %s are shown as %r, '
